@@ -31,7 +31,7 @@ pub struct HRec { pub key: Bytes, pub tstamp: i64, pub pos: u64, pub len: u64 }
 /// a data file: its complete records in file order; `torn` = a partial record follows the last one
 /// (left by a failed append); `synced` = number of records covered by the last fsync
 pub struct DataG { pub recs: Seq<Rec>, pub size: u64, pub torn: bool, pub synced: nat }
-pub struct HintG { pub recs: Seq<HRec>, pub torn: bool }
+pub struct HintG { pub recs: Seq<HRec>, pub torn: bool, pub synced: nat }
 pub tracked struct World {
     pub ghost data: Map<u64, DataG>,
     pub ghost hint: Map<u64, HintG>,
@@ -42,7 +42,22 @@ pub tracked struct World {
     pub ghost pool_cap: nat,
 }
 pub open spec fn empty_data() -> DataG { DataG { recs: Seq::empty(), size: 0, torn: false, synced: 0 } }
-pub open spec fn empty_hint() -> HintG { HintG { recs: Seq::empty(), torn: false } }
+pub open spec fn empty_hint() -> HintG { HintG { recs: Seq::empty(), torn: false, synced: 0 } }
+/// C09: every record of every file is covered by an fsync (nothing a power loss could take away)
+pub open spec fn all_synced(w: World) -> bool {
+    &&& forall |f: u64| #[trigger] w.data.contains_key(f) ==> w.data[f].synced == w.data[f].recs.len()
+    &&& forall |f: u64| #[trigger] w.hint.contains_key(f) ==> w.hint[f].synced == w.hint[f].recs.len()
+}
+/// every file except the two merge outputs with id `out` is fully synced
+pub open spec fn all_synced_except(w: World, out: u64) -> bool {
+    &&& forall |f: u64| #[trigger] w.data.contains_key(f) && f != out ==> w.data[f].synced == w.data[f].recs.len()
+    &&& forall |f: u64| #[trigger] w.hint.contains_key(f) && f != out ==> w.hint[f].synced == w.hint[f].recs.len()
+}
+/// C09: called (ghost) in front of every unlink: when the operation started from a fully synced directory, a file
+/// may only be removed while everything else in the directory is on stable storage
+pub proof fn durable_checkpoint(w: &World, started_synced: bool)
+    requires started_synced ==> all_synced(*w),   //@[C09.unlink.all_durable]
+{}
 
 #[derive(PartialEq, Eq, Clone, Copy)]
 pub enum Kind { Data, Hint }
@@ -125,6 +140,20 @@ pub mod fs {
         pub uninterp spec fn kind(&self) -> Kind;
         pub uninterp spec fn id(&self) -> u64;
     }
+    impl File {
+        /// fsync of a data file: every record that is in the file becomes durable, or the call fails
+        #[verifier::external_body]
+        pub fn sync_all(&self, Tracked(w): Tracked<&mut World>) -> (r: io::Result<()>)
+            ensures
+                final(w).ever == old(w).ever, final(w).hint == old(w).hint, final(w).data.dom() == old(w).data.dom(),
+                final(w).pool_free == old(w).pool_free, final(w).pool_cap == old(w).pool_cap,
+                forall |i: u64| i != self.id() && old(w).data.contains_key(i) ==> #[trigger] final(w).data[i] == old(w).data[i],
+                old(w).data.contains_key(self.id()) ==> final(w).data[self.id()].recs == old(w).data[self.id()].recs
+                    && final(w).data[self.id()].size == old(w).data[self.id()].size && final(w).data[self.id()].torn == old(w).data[self.id()].torn
+                    && final(w).data[self.id()].synced <= final(w).data[self.id()].recs.len(),
+                (r is Ok && old(w).data.contains_key(self.id())) ==> final(w).data[self.id()].synced == old(w).data[self.id()].recs.len(),
+        { unimplemented!() }
+    }
     #[verifier::external_body]
     pub struct Metadata { k: usize }
     impl Metadata {
@@ -167,6 +196,11 @@ impl io::BufWriter<fs::File> {
     #[verifier::external_body]
     pub fn new(f: fs::File) -> (r: io::BufWriter<fs::File>)
         ensures r.id() == f.id(), r.pending() == Seq::<Rec>::empty(), r.end() == 0, !r.dirty()
+    { unimplemented!() }
+
+    #[verifier::external_body]
+    pub fn get_ref(&self) -> (r: &fs::File)
+        ensures r.id() == self.id()
     { unimplemented!() }
 
     #[verifier::external_body]
